@@ -21,16 +21,20 @@ from . import c07 as C07
 from . import c18 as C18
 
 PROP = "C08"
-RULE = ("random ADMGs with 2-5 nodes x pairs (outcome conjunction, non-empty condition conjunction) with disjoint keys drawn "
+RULE = ("(7%: structured 'observational' inputs -- P(y | x) over factual variables, the static part of the proved fragment; 8%: structured 'bichain' inputs -- 3-4 nodes on a chain of bidirected edges, one outcome, two conditions) random ADMGs with 2-5 nodes x pairs (outcome conjunction, non-empty condition conjunction) with disjoint keys drawn "
         "from <=2 counterfactual worlds plus the factual world (shared/distinct subscripts, x / x' values, "
         "self-interventions); the examples of test_idc_star / Shpitser-Pearl / Tikka and all past witnesses first; a "
         "stream of impossible conditions (violating effectiveness). Every case is run under every order of the worlds and "
         "both orders of the other set-valued iterations. A case is non-trivial when the graph has an edge, some variable "
         "is counterfactual and IDC* got past line 1 (answered, returned Zero, or refused as unidentifiable).")
 ASSUMPTIONS = [
-    "soundness (value = P(outcomes, conditions) / P(conditions)) and zero-soundness have NO theorem; IDC* inherits the wrong "
-    "answers of ID* (F10) and adds its own (the exchanged condition always becomes the unstarred subscript; F11: "
-    "Expression.conditional also normalises over subscripts and bound variables): decided by correspondence + exact "
+    "soundness (value = P(outcomes, conditions) / P(conditions)) is PROVED on the fragment InFragmentC (idcstar_sound_fragment: "
+    "factual unstarred outcomes and conditions without a common name, rule 2 applies to no condition, the joint ID* estimand "
+    "marginalises nothing; decided on the real run, tag in_fragment_c; a failure inside it is a VIOLATION keyed "
+    "[IN-FRAGMENT, kind]); outside the fragment soundness and zero-soundness have NO theorem; IDC* inherits the wrong "
+    "answers of ID* (F10) and adds its own (the line-4 exchange ignores the remaining conditions; what remains of F11: "
+    "Expression.conditional also normalises over the variables bound by inner sums of the ID* estimand -- the subscript part of "
+    "F11 is repaired by `fix:` a54a0f5): decided by correspondence + exact "
     "evaluation on 8 sampled functional SCMs per case; the known wrong answers are listed in known_findings.jsonl",
     "reading of an estimand as in C07 (free outcome variables take the values of the joint event; both subscript conventions "
     "are tried); models in which the conditions have probability 0 or a denominator of the estimand is 0 are skipped",
@@ -41,16 +45,23 @@ ASSUMPTIONS = [
     "in get_new_outcomes_and_conditions decide which condition is exchanged first); the model takes that order as the "
     "parameter kordf, the harness drives the real code through both orders and judges every distinct answer",
     "termination of the model is by fuel (2(|outcomes|+|conditions|) + |V| + 4): the inner ID* calls terminate by theorem "
-    "(C07 idstar_never_out_of_fuel); for IDC*'s own line-4 recursion no decreasing measure is proved (|conditions| and the "
-    "number of keys do NOT always decrease, see Props/C08.lean), it is checked on every generated input (an exhausted fuel would "
-    "be a correspondence disagreement; 50 000 extra random inputs: depth <= |conditions| + 1); the division `e / d` is modelled for the operands IDC* can produce (an ID* estimand is never a Fraction)",
+    "(C07 idstar_never_out_of_fuel); IDC*'s own line-4 recursion terminates by theorem with the explicit bound |conditions| + 1 "
+    "on every input in which no variable NAME occurs both among the outcomes and among the conditions "
+    "(idcstar_own_recursion_terminates / idcstar_bound_suffices; idcStarO = the model with its own fuel exhaustion observable, "
+    "idcstar_model_is_idcStarO). OPEN when an outcome and a condition are copies of one variable: |conditions| can grow there "
+    "(the re-association puts merged keys into both dicts, an exchange can split a shared key), no measure is proved and no "
+    "looping input is known (95 000 random inputs incl. shared names / shared keys / 5 worlds: depth <= |conditions| + 1); it is "
+    "checked on every generated input (an exhausted fuel would be a correspondence disagreement, a RecursionError of the real "
+    "code a crash = VIOLATION); the division `e / d` is modelled for the operands IDC* can produce (an ID* estimand is never a Fraction)",
     "pairs in which the same counterfactual variable V_S occurs both as an outcome and as a condition are left out of the "
     "checked domain (idc_star merges the two dicts, the condition's value silently wins)",
     "a wrong value / wrong Zero is classified by the FIRST step of IDC*'s own chain of claims that an independent exact "
     "evaluation shows to be broken on that input: 'reassociation' (get_new_outcomes_and_conditions changes "
     "P(outcomes | conditions)), 'exchange' (the line-4 exchange changes it), 'inherited' (the final id_star call is wrong by "
-    "itself: keyed by the C07 finding it shrinks to), 'F11' (numerator right, Expression.conditional normalises over bound / "
-    "subscript-only names; confirmed by evaluating the repaired fraction); these classes have ONE coarse finding key each, "
+    "itself: keyed by the C07 finding it shrinks to), 'F11' (numerator right, every name Expression.conditional wrongly "
+    "normalises over is BOUND by a sum inside the numerator; confirmed by evaluating the repaired fraction; a wrong "
+    "normaliser that contains a subscript-only name is the repaired part of F11 and is reported as the unlisted kind "
+    "'normalisation:subscript', i.e. as a VIOLATION); these classes have ONE coarse finding key each, "
     "because the broken step is identified on every such input, not inferred from the input's shape; any other failure "
     "(including every crash) is keyed by (failure kind, graph + outcomes + conditions of the SHRUNK failing input up to "
     "renaming). A new defect that only ever co-occurs with an earlier broken step on the same input would be masked",
@@ -78,12 +89,60 @@ CORPUS = [
 ]
 
 
+def _gen_bichain(rng: random.Random):
+    """structured: 3-4 nodes joined by a CHAIN of bidirected edges (plus a few directed edges), one outcome and TWO
+    conditions, factual or in one shared world, unstarred values mostly -- the rule-2 test then has to look at ancestors of
+    a condition that are not ancestors of the outcome (colliders / latent chains through the other condition)"""
+    n = rng.choice([3, 3, 4])
+    nodes = list(range(n))
+    rng.shuffle(nodes)
+    bi = [[nodes[i], nodes[i + 1]] for i in range(n - 1) if rng.random() < 0.85]
+    di = []
+    for i in range(n):
+        for j in range(i + 1, n):
+            if rng.random() < 0.3:
+                di.append([nodes[i], nodes[j]])     # acyclic: along the shuffled order
+    g = {"nodes": sorted(nodes), "di": di, "bi": bi}
+    pick = rng.sample(nodes, 3)
+    w = ()
+    if n == 4 and rng.random() < 0.4:
+        x = [v_ for v_ in nodes if v_ not in pick][0]
+        w = ((x, "m"),)
+    val = lambda: "m" if rng.random() < 0.8 else "p"    # noqa: E731
+    outs = [[K.mkvar(pick[0], w if rng.random() < 0.7 else ()), val()]]
+    conds = [[K.mkvar(pick[1], w if rng.random() < 0.7 else ()), val()],
+             [K.mkvar(pick[2], w if rng.random() < 0.7 else ()), val()]]
+    rng.shuffle(conds)
+    return g, outs, conds
+
+
+def _gen_observational(rng: random.Random):
+    """structured: an observational conditional query P(y | x) -- factual variables, unstarred values, disjoint names: the
+    static part of the fragment of idcstar_sound_fragment (whether rule 2 applies / something is marginalised varies)"""
+    g = K.rand_admg(rng, 2, 4)
+    nodes = G.all_nodes(g)
+    k = rng.randint(2, min(len(nodes), 4))
+    pick = rng.sample(nodes, k)
+    cut = rng.randint(1, k - 1)
+    outs = [[K.mkvar(v_), "m"] for v_ in pick[:cut]]
+    conds = [[K.mkvar(v_), "m"] for v_ in pick[cut:]]
+    return g, outs, conds
+
+
 def cases(rng: random.Random, tier: str):
     out = [dict(c, seed=3000 + i) for i, c in enumerate(CORPUS)]
     out += K.load_corpus("C08")
     n = 1200 if tier == "quick" else 8000
     while len(out) < n + len(CORPUS):
         big = rng.random() < (0.12 if tier == "quick" else 0.3)
+        if rng.random() < 0.08:
+            g, outs, conds = _gen_bichain(rng)
+            out.append({"g": g, "outcomes": outs, "conditions": conds, "seed": rng.randrange(1 << 30), "gen": "bichain"})
+            continue
+        if rng.random() < 0.07:
+            g, outs, conds = _gen_observational(rng)
+            out.append({"g": g, "outcomes": outs, "conditions": conds, "seed": rng.randrange(1 << 30), "gen": "observational"})
+            continue
         g = K.rand_admg(rng, 2, 5 if big else 4)
         pr = K.rand_event_pair(rng, g, max_worlds=2)
         if pr is None:
@@ -129,8 +188,17 @@ def _run_real(case, strategy, record=None):
     try:
         with K.fixed_orders_idc(strategy):
             if record is not None:
-                record.update({"id_star": [], "levels": [], "reassoc": []})
+                record.update({"id_star": [], "levels": [], "reassoc": [], "rule2": []})
                 orig_new = idc.get_new_outcomes_and_conditions
+                orig_r2 = idc.cf_rule_2_of_do_calculus_applies
+
+                def rec_r2(cf_graph, outcomes, condition):
+                    outcomes = list(outcomes)
+                    r = orig_r2(cf_graph, outcomes, condition)
+                    record["rule2"].append({"level": len(record["levels"]) - 1, "cf": K.enc_nx_cf_graph(cf_graph),
+                                            "outcomes": [E.enc_var(o) for o in outcomes],
+                                            "condition": E.enc_var(condition), "result": bool(r)})
+                    return r
 
                 def rec_id(g, event, **kw):
                     try:
@@ -150,10 +218,12 @@ def _run_real(case, strategy, record=None):
                     record["reassoc"].append((dict(r[0]), dict(r[1])))
                     return r
                 idc.id_star, idc.idc_star, idc.get_new_outcomes_and_conditions = rec_id, rec_idc, rec_new
+                idc.cf_rule_2_of_do_calculus_applies = rec_r2
                 try:
                     est = rec_idc(graph, K.dec_event(case["outcomes"]), K.dec_event(case["conditions"]))
                 finally:
                     idc.get_new_outcomes_and_conditions = orig_new
+                    idc.cf_rule_2_of_do_calculus_applies = orig_r2
             else:
                 est = orig_idc(graph, K.dec_event(case["outcomes"]), K.dec_event(case["conditions"]))
     except Unidentifiable:
@@ -207,11 +277,42 @@ def _union(o, c):
     return list(seen.values())
 
 
+def _documented_rule2(call):
+    """The rule-2 test AS DOCUMENTED in idc_star.py, recomputed independently of the code (path-enumeration d-separation
+    of oracles/sep_paths.py): every outcome is d-separated from the condition in the counterfactual graph without the
+    edges leaving the condition, given the self-intervened nodes other than the two tested ones.  None = out of scope."""
+    from ..oracles import sep_paths as SP
+
+    _, nodes, di, bi = call["cf"]
+    key = lambda v_: json.dumps(K.canon_var(v_))    # noqa: E731
+    idx = {key(n): i for i, n in enumerate(nodes)}
+    c = idx.get(key(call["condition"]))
+    outs = [idx.get(key(o)) for o in call["outcomes"]]
+    if c is None or any(o is None for o in outs):
+        return None
+    g = {"nodes": list(range(len(nodes))), "di": [[idx[key(u)], idx[key(w)]] for u, w in di if idx[key(u)] != c],
+         "bi": [[idx[key(u)], idx[key(w)]] for u, w in bi]}
+    blocked = {i for i, n in enumerate(nodes) if any(int(a) == int(n[1]) for a, _ in n[4])}
+    try:
+        return all(o != c and SP.d_separated(g, o, c, sorted(blocked - {o, c})) for o in outs)
+    except SP.OracleDisagreement:
+        return None
+
+
+def _exchange_justified(rec, level):
+    """was the exchange made at `level` licensed by the documented rule-2 test?  (True / False / None = unknown)"""
+    calls = [c for c in rec.get("rule2", []) if c["level"] == level and c["result"]]
+    if not calls:
+        return None
+    return _documented_rule2(calls[-1])
+
+
 def _exchange_kind(g, before, after, seed, n_models):
     """Why is the exchange step  P(out | cond) -> P(out' | cond minus {c})  broken?  Decided by exact evaluation of variants:
     'exchange:polarity'   it would be right had the new subscript the other star (the value of the condition was lost),
     'exchange:conditions' it would be right had the remaining conditions received the new subscript as well,
-    'exchange:separation' neither (the condition should not have been exchanged: the d-separation test is insufficient)."""
+    'exchange:separation' neither (the condition should not have been exchanged: the d-separation test is insufficient).
+    (Only reached when the exchange IS licensed by the documented rule-2 test, see _exchange_justified.)"""
     (o1, c1), (o2, c2) = before, after
     k2 = {C.enc(var) for var, _ in c2}
     gone = [[var, val] for var, val in c1 if C.enc(var) not in k2]
@@ -257,6 +358,11 @@ def _explain(case, strategy, n_models):
                 return "reassociation", {"level": i, "before": lv, "after": reassoc[i]}
             if i + 1 < len(levels) and in_dom(reassoc[i]) and in_dom(levels[i + 1]) and \
                     _ratio_differs(g, reassoc[i], levels[i + 1], seed, n_models):
+                if _exchange_justified(rec, i) is False:
+                    # the known exchange findings are about the DOCUMENTED test being too weak; an exchange that the
+                    # documented test (recomputed independently) does not license is a different, unlisted defect
+                    return "exchange:not-licensed-by-documented-test", \
+                        {"level": i, "before": reassoc[i], "after": levels[i + 1]}
                 return _exchange_kind(g, reassoc[i], levels[i + 1], seed, n_models), \
                     {"level": i, "before": reassoc[i], "after": levels[i + 1]}
     calls = [c for c in rec.get("id_star", []) if "_number_recursions" in c[1]]
@@ -273,21 +379,43 @@ def _explain(case, strategy, n_models):
     return None, None
 
 
-def _f11_repaired(case, expr):
-    """if `expr` is `num / Sum[R](num)` (what Expression.conditional builds): the candidate repairs of F11 — the same fraction
-    normalised over the FREE outcome variables of `num` among R only (no sum over variables bound inside `num` or occurring
-    only as subscripts).  A summed outcome variable X either also drives the same-named unstarred subscripts (they were
-    made from the pillow node X by line 6) or leaves them alone (they are literal values of the original event): both
-    readings are offered per variable, since the estimand does not tell them apart (F10/M3)."""
+def _bound_names(e):
+    """names in the range of some Sum inside `e`"""
+    out = set()
+    if isinstance(e, str):
+        return out
+    if e[0] in ("sum", "osum"):
+        out |= {int(v[1]) for v in e[1]} | _bound_names(e[2])
+    elif e[0] == "prod":
+        for y in e[1:]:
+            out |= _bound_names(y)
+    elif e[0] == "frac":
+        out |= _bound_names(e[1]) | _bound_names(e[2])
+    return out
+
+
+def _normaliser_ranges(expr):
+    """(num, R) when `expr` is `num / Sum[R](num)` or `num / num` (what Expression.conditional builds), else None"""
     if isinstance(expr, str) or expr[0] != "frac":
-        return []
+        return None
     num, den = expr[1], expr[2]
     if den == num:
-        ranges = []
-    elif den[0] == "sum" and den[2] == num:
-        ranges = [int(v[1]) for v in den[1]]
-    else:
+        return num, []
+    if not isinstance(den, str) and den[0] == "sum" and den[2] == num:
+        return num, [int(v[1]) for v in den[1]]
+    return None
+
+
+def _f11_repaired(case, expr):
+    """if `expr` is `num / Sum[R](num)` (what Expression.conditional builds): the candidate repairs of F11 — the same fraction
+    normalised over the FREE outcome variables of `num` among R only (no sum over variables bound inside `num`).
+    A summed outcome variable X either also drives the same-named unstarred subscripts (they were
+    made from the pillow node X by line 6) or leaves them alone (they are literal values of the original event): both
+    readings are offered per variable, since the estimand does not tell them apart (F10/M3)."""
+    nr = _normaliser_ranges(expr)
+    if nr is None:
         return []
+    num, ranges = nr
     free = set()
     for fn in S.free_names(num):
         free |= fn
@@ -307,10 +435,25 @@ def _f11_repaired(case, expr):
     return out
 
 
+def _extra_is_bound_only(expr):
+    """every name the normaliser sums over although it is not a free outcome variable of the numerator is bound by a Sum
+    inside the numerator (what remains of F11); False when some such name occurs in subscripts only (repaired by
+    `fix:` a54a0f5: must not happen any more)"""
+    nr = _normaliser_ranges(expr)
+    if nr is None:
+        return False
+    num, ranges = nr
+    free = set()
+    for fn in S.free_names(num):
+        free |= fn
+    return all(n in _bound_names(num) for n in ranges if n not in free)
+
+
 def _judge(case, res, exc, n_models, strategy=None):
     """(failure message, kind) for one answer of the real code.  Wrong values / wrong zeros are classified by what explains
     them: 'inherited' (the inner ID* call is already wrong: a C07 finding), 'F11' (the numerator is right, only the
-    normalisation by Expression.conditional is wrong), or plain 'value' / 'zero'."""
+    normalisation by Expression.conditional is wrong: it sums over variables bound inside the numerator), or plain
+    'value' / 'zero'."""
     g = {"nodes": G.all_nodes(case["g"]), "di": case["g"]["di"], "bi": case["g"]["bi"]}
     jt = joint(case)
     cond = K.sort_event(case["conditions"])
@@ -343,12 +486,13 @@ def _judge(case, res, exc, n_models, strategy=None):
     if kind == "value":
         reps = [r for r in _f11_repaired(case, expr) if r != expr]
         if any(S.check_estimand(g, jt, rep, case.get("seed", 0), n_models=n_models, cond=cond) is None for rep in reps):
-            if expr[0] == "frac" and not isinstance(expr[1], str) and expr[1][0] == "P":
-                # F11 lives in Expression.conditional (sums / products); for a single term Probability.conditional is used,
-                # which leaves the intervention subscripts alone: a wrong normalisation of a single term is NOT F11
-                return msg + (" [numerator right, a single P[...](...) term; its normalisation also sums over names that occur "
-                              "only as subscripts -- Probability.conditional does not do that]"), "normalisation:single-term"
-            return msg + " [numerator right; only the normalisation of Expression.conditional is wrong: F11]", "F11"
+            if not _extra_is_bound_only(expr):
+                # the subscript part of F11 (repaired by `fix:` a54a0f5): neither conditional overload may sum over a name
+                # that occurs in subscripts only; NOT a listed finding, so this is reported as a VIOLATION
+                return msg + (" [numerator right; the normalisation also sums over names that occur only as subscripts -- "
+                              "both conditional overloads skip Intervention objects since the fix]"), "normalisation:subscript"
+            return msg + (" [numerator right; only the normalisation of Expression.conditional is wrong, it also sums over "
+                          "variables bound inside the numerator: F11 (bound-range part)]"), "F11"
     if kind == "value" and not isinstance(expr, str) and expr[0] == "frac":
         shared = {int(var[1]) for var, _ in case["outcomes"]} & {int(var[1]) for var, _ in case["conditions"]}
         if shared and S.check_estimand(g, jt, expr[1], case.get("seed", 0), n_models=n_models) is None:
@@ -407,13 +551,62 @@ def _evaluate(case, n_models=8, with_unpatched=True, all_verdicts=False):
             "verdicts": [[json.dumps(a)[:160], list(s_) if s_ is not None else None, k_] for a, s_, k_ in verdicts]}
 
 
-COARSE = ("F11", "normalisation:single-term", "inherited", "reassociation", "exchange:polarity", "exchange:conditions", "exchange:separation",
+def _est_names(e):
+    """base names of the non-Intervention variables of an encoded estimand: event variables of every leaf + Sum ranges"""
+    out = set()
+    if isinstance(e, str):
+        return out
+    t = e[0]
+    if t in ("P", "PP"):
+        ch, pa = (e[1], e[2]) if t == "P" else (e[2], e[3])
+        out |= {int(v_[1]) for v_ in ch + pa if str(v_[3]) != "1"}
+    elif t == "prod":
+        for y in e[1:]:
+            out |= _est_names(y)
+    elif t in ("sum", "osum"):
+        out |= {int(v_[1]) for v_ in e[1] if str(v_[3]) != "1"} | _est_names(e[2])
+    elif t == "frac":
+        out |= _est_names(e[1]) | _est_names(e[2])
+    return out
+
+
+def in_fragment_c(case):
+    """The fragment of Props/C08.lean `InFragmentC` (theorem idcstar_sound_fragment), decided on the REAL run:
+    static  -- outcomes / conditions are dicts of factual variables of the graph, unstarred values, no name on both sides,
+               at least one condition (and the graph is acyclic);
+    dynamic -- line 4 did not recurse (rule 2 applied to no condition) and the estimand ID* returned for the joint event
+               mentions exactly the event's variables (nothing was marginalised).
+    Inside it IDC* is PROVED to return P(outcomes, conditions) / P(conditions): a failure there is a VIOLATION."""
+    from y0.dsl import Expression
+
+    outs, conds = case["outcomes"], case["conditions"]
+    if not outs or not conds or case.get("malformed"):
+        return False
+    nodes = set(G.all_nodes(case["g"]))
+    for var, val in outs + conds:
+        if var[4] or str(var[2]) != "n" or str(var[3]) != "0" or val != "m" or int(var[1]) not in nodes:
+            return False
+    on, cn = [int(v_[1]) for v_, _ in outs], [int(v_[1]) for v_, _ in conds]
+    if len(set(on)) != len(on) or len(set(cn)) != len(cn) or set(on) & set(cn):
+        return False
+    rec = {}
+    res, _ = _run_real(case, K.id_strategies(joint(case))[0], record=rec)
+    if len(rec.get("levels", [])) != 1 or res[0] == "err":
+        return False
+    calls = [c for c in rec.get("id_star", []) if "_number_recursions" in c[1]]
+    if not calls or not isinstance(calls[-1][2], Expression):
+        return False       # ID* refused or failed on the joint event: IDC* returns no expression
+    est = K.canon_expr(E.to_str_tree(E.enc_expr(calls[-1][2])))
+    return _est_names(est) == set(on) | set(cn)
+
+
+COARSE = ("F11", "normalisation:subscript", "inherited", "reassociation", "exchange:polarity", "exchange:conditions", "exchange:separation",
           "conditional:shared-base")
 
 
 def _coarse_key(case, r):
     """finding key of the failures that are explained by an identified broken step / another listed defect"""
-    if r["kind"] in ("F11", "normalisation:single-term", "reassociation", "conditional:shared-base") or \
+    if r["kind"] in ("F11", "normalisation:subscript", "reassociation", "conditional:shared-base") or \
             r["kind"].startswith("exchange:"):
         return json.dumps([r["kind"]])
     if r["kind"] == "inherited":
@@ -428,11 +621,24 @@ def _coarse_key(case, r):
 
 
 SHRINK = K.Shrinker(PROP, ("outcomes", "conditions"), _evaluate, ("g", "outcomes", "conditions", "seed"))
+# every C08 finding listed in known_findings.jsonl has a coarse (mechanism) key, none the key of a shrunk input: trying other
+# shrink orders "to reach a listed key" (Shrinker.shrink_to_key) cannot succeed and costs 6 more full shrinks per failure
+SHRINK.greedy_only = True
+_SHRUNK = [0]
+
+
+def _shrink_budget(per_process=5):
+    """shrinking is expensive (hundreds of real runs); under a massive breakage only the first few failures of each worker
+    process are shrunk, the others keep the key of the unshrunk input -- every C08 finding listed in known_findings.jsonl has
+    a coarse (mechanism) key, so an unshrunk key is never excused: this only bounds the time, not the verdict"""
+    _SHRUNK[0] += 1
+    return _SHRUNK[0] <= per_process
 
 
 def run_python(case):
     r = _evaluate(case, all_verdicts=True)
     by_order = r["by_order"]
+    frag = bool(r["in_domain"]) and in_fragment_c(case)
     distinct = []
     for x in by_order:
         if x not in distinct:
@@ -451,20 +657,29 @@ def run_python(case):
             "single_world_leaves": all(C07.single_world(x[1]) for x in by_order if x[0] == "ok"),
             "condition_certainly_impossible": certainly_impossible(case["conditions"]),
             # task "hash seed": when the answer depends on the iteration order of a Python set, are all answers right?
-            "order_dependent_verdict": r["order_verdict"]}
+            "order_dependent_verdict": r["order_verdict"], "gen": case.get("gen", "random"),
+            # Props/C08.lean idcstar_sound_fragment: inside the fragment the answer is proved right
+            # Props/C08.lean idcstar_own_recursion_terminates: no name is both an outcome and a condition
+            "termination_theorem_applies": not ({int(v_[1]) for v_, _ in case["outcomes"]} &
+                                                {int(v_[1]) for v_, _ in case["conditions"]}),
+            "in_fragment_c": frag, "in_fragment_c_answered": bool(frag and shape in ("P", "sum", "prod", "frac"))}
     nontrivial = r["in_domain"] and K.n_worlds(jt) >= 1 and bool(case["g"]["di"] or case["g"]["bi"]) and \
         shape in ("P", "sum", "prod", "frac", "unidentifiable", "zero")
     out = {"out": ["orders", by_order], "fail": r["fail"], "nontrivial": bool(nontrivial), "tags": tags}
     if r["fail"] and r["order_verdict"] == "mixed":
         out["fail"] += (" [the answer depends on the iteration order of a Python set (PYTHONHASHSEED): under another order "
                         "idc_star returns a CORRECT answer; verdict per distinct answer: %s]" % r["verdicts"])
-    if r["fail"] and r["kind"] in COARSE:
+    if r["fail"] and frag:
+        # a theorem says this cannot happen: never a known finding
+        out["fail"] += " [INSIDE the fragment of idcstar_sound_fragment (Props/C08.lean): the answer is proved correct there]"
+        out["finding_key"] = json.dumps(["IN-FRAGMENT", r["kind"]])
+    elif r["fail"] and r["kind"] in COARSE:
         ck = _coarse_key(case, r)
         if r["order_verdict"] == "mixed":
             # the same input is answered correctly under one iteration order and wrongly under another
             ck = json.dumps(["order-dependent-verdict", json.loads(ck)])
         out["finding_key"] = ck
-    elif r["fail"] and not case.get("_noshrink"):
+    elif r["fail"] and not case.get("_noshrink") and _shrink_budget():
         small, key = SHRINK.shrink_to_key(case, r["kind"])
         out["shrunk"] = small
         out["finding_key"] = key
@@ -511,6 +726,8 @@ def finding_key(case, res):
     if res.get("finding_key"):
         return res["finding_key"]
     r = _evaluate(case)
+    if r["fail"] and r["in_domain"] and in_fragment_c(case):
+        return json.dumps(["IN-FRAGMENT", r["kind"]])
     return _coarse_key(case, r) or SHRINK.key_of(case, r["kind"])
 
 
@@ -519,12 +736,12 @@ MANIFEST = {
              "(ValueError) every condition for which ID* answers Zero, in particular every condition that violates "
              "effectiveness, before doing anything else; the model is defined for every fuel, an answer reached with some fuel "
              "is not changed by more fuel; every leaf of a returned estimand is a single-world interventional term (C06 part); "
-             "Zero from line 3 (inconsistent joint event) is sound in every compatible functional SCM (by C18's cg_prob); the final division is fully modelled. Soundness of the returned value and of Zero from inside ID* has NO theorem (it inherits F10 from "
-             "ID* and adds F11 and the unstarred exchange of conditions); the check decides it by correspondence with the real "
+             "Zero from line 3 (inconsistent joint event) is sound in every compatible functional SCM (by C18's cg_prob); the final division is fully modelled; the line-4 recursion terminates within |conditions| + 1 levels when no name is both an outcome and a condition (idcstar_own_recursion_terminates); the returned value EQUALS P(outcomes, conditions)/P(conditions) in every compatible functional SCM on the observational no-exchange fragment (idcstar_sound_fragment, via idstar_sound_fragment, the repaired conditional and marginalisation). Outside that fragment soundness of the returned value and of Zero from inside ID* has NO theorem (it inherits F10 from "
+             "ID* and adds the bound-range part of F11 and an exchange step that ignores the other conditions); the check decides it by correspondence with the real "
              "code plus exact evaluation of P(outcomes, conditions)/P(conditions) on sampled functional SCMs; every wrong answer is "
              "attributed to the first step of IDC*'s chain of claims that exact evaluation shows to be broken (reassociation, "
              "exchange:conditions, exchange:separation, inherited from ID*, F11) and those steps are listed as open findings; three "
-             "small defects were fixed (2281796, 618b4aa, b9b2278)."),
+             "small defects were fixed in idc_star.py (0cb6c69, 8a76512, 9f8a537) and the subscript part of F11 in dsl.py (a54a0f5)."),
     "note": ("Trusted: Lean kernel + standard axioms; hand-written models (ID*, counterfactual graph, d-separation of the sep "
              "family, Expression.conditional) tied to the code by differential testing under all set-iteration orders; the "
              "reading convention of estimands; sampled models (8 per case, P(conditions) > 0)."),
